@@ -308,3 +308,31 @@ ADDENDA6 = {
 }
 for _p, _t in ADDENDA6.items():
     CLAIMED[_p]['text'] = CLAIMED[_p]['text'].rstrip() + ' ' + _t
+
+# rounds 16 and 17
+ADDENDA7 = {
+    'C04': "(L, extended) batched matrices keep their samples apart: C10.P rules on the substitution-model modules (axes from the end, no new first axis on a parameter in the branch chosen "
+           "by the rank of another one, no row of the first sample); (E, extended) matrix_exp receives Q with two axes inserted in front of its matrix axes and t with two appended.",
+    'C05': "(H, extended) the dirty flag of a site model goes down only after an unconditional refresh and after it (C11.S); no property setter meant for a parameter on a Parametric "
+           "class (Parametric.__setattr__ intercepts the assignment).",
+    'C06': "(H, extended) the concatenation / view / transformed parameter kinds forward every event and their setters notify (C11.H / C11.W); (F, extended) no child of a node is looked "
+           "at alone (C02.N child symmetry); (S, extended) a transform rebuilt after construction (cuda / cpu) receives the arguments the constructor gave it; the reduction over the "
+           "children is chosen by the k regime only; (Y, extended) the value read from JSON key K reaches the constructor parameter K.",
+    'C07': "(C, extended) every parameter kind of core/parameter.py forwards events, notifies from its setters and follows in-place writes by the notification of the parameter written "
+           "into; (I, extended) an inverse of the log-difference rate transform reads y by position in the pre-order table; the shift transform's reduction is chosen by the regime only.",
+    'C08': "(M, extended) nothing taken from `<parameter>.tensor` at construction (also through a helper) is used at evaluation; (T, extended) no event time is rounded / truncated; "
+           "constructor numbers do not become default-precision tensors that other methods compute with.",
+    'C11': "(S, extended) a flag-guarded refresh clears its flag last and refreshes unconditionally before it; (H, extended) no unreachable parameter setter on Parametric classes; "
+           "(W, refined) the client clause applies to attributes the constructor declares as AbstractParameter.",
+    'C13': "(W, extended) `X.from_json[_safe](spec, shared registry)` is called by process_object*, from_json_safe and from_json methods only; (F, extended) an inherited json_factory "
+           "writes the type of the class it is called on; (M, extended) after a caught JSONParseError main() neither constructs nor runs anything; (U, extended) MCMC operators restore "
+           "through the notifying setter.",
+    'C14': "(T, extended) the analytic-entropy ELBO adds the TOTAL entropy; (C, extended) Distribution.entropy is not replicated to the width of x; (S, extended) draws are stored through "
+           "the setter of x; (J, extended) the element-wise transforms report Σ log|g'| of their forward chain (C07.L).",
+    'C15': "(L, extended) a move is accepted only by the uniform draw (or under `log_alpha >= 0`).",
+    'C18': "(I1 / I2 / X, extended) a package function that is handed one of the protocol's paths is part of the protocol: its body is inlined (depth ≤ 3); os.chmod modelled.",
+    'C20': "(S, extended) hyper-parameters given as numbers are not turned into default-precision tensors that the density computes with; event count and field dimension decided as "
+           "linear integer forms (floor exact for the odd number of nodes); the clone comparison looks at the slice of diff_square only.",
+}
+for _p, _t in ADDENDA7.items():
+    CLAIMED[_p]['text'] = CLAIMED[_p]['text'].rstrip() + ' ' + _t
